@@ -27,7 +27,7 @@ def run(tier):
     for cfg in (["MC_WordArith_w2n2", "MC_WordArith_w2n3"] if tier == "quick" else ["MC_WordArith_w2n2", "MC_WordArith_w2n3", "MC_WordArith_w3n2", "MC_WordArith_w4n2"]):
         run.mc("MC_WordArith", cfg + ".cfg", timeout=1500)
     # (2) G->I: TLC-generated cases replayed on the default build and the portable builds
-    cases = run.generate("Gen_Field", "field")
+    cases = run.generate("Gen_Field", "field", env={"CONSTS": os.path.join(sc, "consts.all.ndjson")})   # the code's root of unity: Tonelli-Shanks worst cases
     fcases = os.path.join(sc, "fp.cases.ndjson")
     filter_cases(cases, fcases, lambda e: e["op"].startswith("fp."))
     traces = []
